@@ -50,6 +50,12 @@ fn main() {
     }
     match args[1].as_str() {
         "replay" => std::process::exit(report::replay_file(&args[2])),
+        // helper of C05 stage (I): output digests of one indicator for periods 1..=600 computed in THIS
+        // (fresh) process, ascending or descending
+        "digest" if args.len() >= 4 => {
+            std::panic::set_hook(Box::new(|_| {}));
+            std::process::exit(props::c05::digest_main(&args[2], &args[3]));
+        }
         "check" => {}
         _ => usage(),
     }
